@@ -36,6 +36,8 @@ pub fn base_types() -> Vec<FTy> {
         ft("u32", &["10u32", "20u32", "4000000000u32"], ALL | CONSTVAL),
         ft("i64", &["-1i64", "1i64", "-9000000000i64"], ALL | CONSTVAL),
         ft("u16", &["3u16", "4u16", "65535u16"], ALL | CONSTVAL),
+        // implements every std trait normally and has inherent methods of the same names that answer wrongly
+        ft("Decoy", &["Decoy(1)", "Decoy(2)", "Decoy(200)"], ALL | CONSTVAL),
     ];
     v[5].refs = 1;
     v[0].clone_methods.push("m_clone_u8".into());
@@ -89,9 +91,11 @@ pub enum Wrapk {
     RefMut,
     /// `&'lt &'lt X`
     RefRef,
+    /// `*const X`: implements every comparison/formatting trait whatever X is, never Default
+    Ptr,
 }
-pub const WRAPS: [Wrapk; 8] =
-    [Wrapk::Option, Wrapk::Vec, Wrapk::Tup, Wrapk::Arr2, Wrapk::Box, Wrapk::Ref, Wrapk::Phantom, Wrapk::Wrapper];
+pub const WRAPS: [Wrapk; 9] =
+    [Wrapk::Option, Wrapk::Vec, Wrapk::Tup, Wrapk::Arr2, Wrapk::Box, Wrapk::Ref, Wrapk::Phantom, Wrapk::Wrapper, Wrapk::Ptr];
 
 /// apply a type constructor; `lt` is the lifetime name for `Ref`
 pub fn wrap(k: Wrapk, x: &FTy, lt: Option<&str>) -> Option<FTy> {
@@ -178,6 +182,13 @@ pub fn wrap(k: Wrapk, x: &FTy, lt: Option<&str>) -> Option<FTy> {
                 2,
             )
         },
+        Wrapk::Ptr => (
+            format!("*const {}", x.src),
+            format!("*const {}", x.inst),
+            vec![format!("8usize as *const {}", x.inst), format!("16usize as *const {}", x.inst), format!("::core::ptr::null::<{}>()", x.inst)],
+            DEBUG | CLONE | COPY | PEQ | EQ | PORD | ORD | HASH | KEY,
+            0,
+        ),
         Wrapk::Phantom => (
             format!("PhantomData<{}>", x.src),
             format!("PhantomData<{}>", x.inst),
@@ -206,6 +217,31 @@ pub fn wrap(k: Wrapk, x: &FTy, lt: Option<&str>) -> Option<FTy> {
         default_val: None,
         clone_methods: if caps & CLONE != 0 { vec!["m_clone_std".into()] } else { vec![] },
     })
+}
+
+/// `(A, B)` over two parameter uses
+pub fn tup2(a: &FTy, b: &FTy) -> FTy {
+    let (a0, a1) = (&a.vals[0], a.vals.get(1).unwrap_or(&a.vals[0]));
+    let (b0, b1) = (&b.vals[0], b.vals.get(1).unwrap_or(&b.vals[0]));
+    let mut vals = vec![format!("({a0}, {b0})"), format!("({a1}, {b0})"), format!("({a0}, {b1})")];
+    vals.dedup();
+    let caps = a.caps & b.caps;
+    let mut params = a.params.clone();
+    for p in &b.params {
+        if !params.contains(p) {
+            params.push(p.clone());
+        }
+    }
+    FTy {
+        src: format!("({}, {})", a.src, b.src),
+        inst: format!("({}, {})", a.inst, b.inst),
+        vals,
+        caps,
+        params,
+        refs: 0,
+        default_val: None,
+        clone_methods: if caps & CLONE != 0 { vec!["m_clone_std".into()] } else { vec![] },
+    }
 }
 
 /// a bare use of type parameter `name` instantiated with `base`
@@ -304,6 +340,7 @@ pub fn converts(src: &str, target: &str) -> bool {
             | ("char", "u32") | ("char", "u64") | ("char", "String") | ("char", "Wrap")
             | ("&'static str", "String") | ("&'static str", "Wrap")
             | ("String", "Wrap")
+            | ("Decoy", "u16") | ("Decoy", "u32") | ("Decoy", "u64") | ("Decoy", "i64")
     )
 }
 
@@ -316,6 +353,7 @@ pub fn into_method(target: &str) -> &'static str {
         "i64" => "m_into_i64",
         "String" => "m_into_string",
         "&'static str" => "m_into_str",
+        t if t.starts_with("Option<") => "m_into_none",
         _ => "m_into_wrap",
     }
 }
